@@ -70,11 +70,16 @@ class Scheduler:
         return self.rng.choice(sorted(self.alive))
 
     def _yield(self, tid, kind, frame=None):
+        if self.aborted:
+            return
         self.events[tid] += 1
         self.total_events += 1
         if self.total_events > self.max_events:
+            # step cap: stop pre-empting and let every client run to its end, one after the other.  Nothing is
+            # raised into the code under test (an exception from here would surface inside the library and be
+            # mistaken for its own); the engine discards a run whose scheduler says `aborted`.
             self.aborted = True
-            raise RuntimeError('simulation step cap exceeded')
+            return
         nxt = None
         if self.explicit is not None:
             nxt = self.explicit.get((tid, self.events[tid]))
